@@ -34,7 +34,8 @@ def r1(F, R):
             R.ok("C03-R1", key, site, "draw = the state the tree is created from (%s)" % s)
         elif how == "agg" and any(n[0] == "downcast" and n[2] == "Ok" and any(c[0] == "call" and path_ends(c[1], "Hamiltonian::leapfrog") for c in vt_walk(n)) for n in vt_walk(v)):
             R.ok("C03-R1", key, site, "draw = state returned by the leapfrog (Ok payload)")
-        elif how == "assign" and v[0] == "field" and v[2] == "draw" and v[1][0] == "arg":
+        elif how == "assign" and v[0] == "field" and v[2] == "draw" and v[1][0] in ("arg", "local") and \
+                path_ends((b.local_ty(v[1][1]) or "").replace("&", "").replace("mut ", "").strip(), "NutsTree") and v[1][1] != st["pl"]["l"]:
             R.ok("C03-R1", key, site, "draw = other.draw in the merge")
         else:
             R.bad("C03-R1", key, site, "unexpected writer of NutsTree.draw: %s" % s)
@@ -66,8 +67,15 @@ def r2(F, R):
                 else:
                     R.bad("C03-R2", key, site, "ExtendResult::%s carries %s instead of self: a rejected/partial sub-tree becomes the trajectory" % (var, vt_str(b.value(op))))
     merges = b.calls_to(lambda c: path_ends(c["path"], "NutsTree::merge_into"))
+    inline_merge = False
+    if not merges:
+        # the merge written in place: the block where self.log_size becomes logaddexp(self.log_size, other.log_size)
+        for (wb, wbb, wst, wv, whow) in K.field_writers(F, TREE, "log_size"):
+            if wb.path == b.path and whow in ("assign", "call") and any(x[0] == "call" and path_ends(x[1], "logaddexp") for x in vt_walk(wv)):
+                merges.append((wbb, wst))
+                inline_merge = True
     if len(merges) != 1:
-        R.bad("C03-R2", b.path + ":merge", b.path, "expected exactly one merge_into call in extend, found %d" % len(merges))
+        R.bad("C03-R2", b.path + ":merge", b.path, "expected exactly one merge of the new sub-tree in extend (merge_into call or in-place weight update), found %d" % len(merges))
     # rejected arms must not reach the merge
     for bb, t in b.calls():
         c = t["callee"]
@@ -90,6 +98,15 @@ def r2(F, R):
                             R.ok("C03-R2", key, site, "%s outcome returns without merging" % arm["name"])
                 break
     for mb, mt in merges:
+        if inline_merge:
+            recv = K.root_local(b, {"k": "copy", "pl": {"l": mt["pl"]["l"], "p": []}}) if "pl" in mt else K.root_local(b, {"k": "copy", "pl": {"l": mt["dest"]["l"], "p": []}})
+            key = b.path + ":merge-args"
+            site = "%s @%s" % (b.path, loc(mt["span"]))
+            if recv == 1:
+                R.ok("C03-R2", key, site, "the merge updates self")
+            else:
+                R.bad("C03-R2", key, site, "the in-place merge does not update self")
+            continue
         recv = K.root_local(b, mt["args"][0])
         other = b.value(mt["args"][2])
         key = b.path + ":merge-args"
@@ -238,6 +255,12 @@ def _latch_flag(b, flag, cbb, sw_bb, exit_bb):
     return "; ".join(sorted(set(bad)))
 
 
+def _vt_root(v):
+    while v[0] in ("field", "deref", "ref", "downcast"):
+        v = v[1]
+    return v[1] if v[0] in ("arg", "local") else None
+
+
 def r4(F, R):
     R.rule("C03-R4", "SampleInfo.reached_maxdepth = true is produced only on the exit path of the doubling loop whose condition compares the tree depth "
                      "with maxdepth; every return from inside the loop passes false; NutsTree.depth is written only as 0 or += 1")
@@ -282,8 +305,21 @@ def r4(F, R):
             R.bad("C03-R4", key, b.path, "doubling loop condition is not a comparison of tree.depth with maxdepth")
             continue
         after = b.reach_from(exit_edge)
-        for i, (bb, t) in enumerate(infos):
-            flag = b.value(t["args"][1])
+        info_sites = [(bb, t, b.value(t["args"][1])) for (bb, t) in infos]
+        # the same struct written in place (info() inlined by hand): SampleInfo { depth: tree.depth, reached_maxdepth: <flag>, .. }
+        for bi_, blk_ in enumerate(b.blocks):
+            if blk_["cleanup"]:
+                continue
+            for st_ in blk_["stmts"]:
+                if st_["k"] == "assign" and st_["rv"]["k"] == "agg" and st_["rv"].get("ak") == "adt" and path_ends(st_["rv"]["adt"], "nuts::SampleInfo"):
+                    d_ = dict(zip(st_["rv"]["fields"], st_["rv"]["ops"]))
+                    dv_ = vt_str(b.value(d_["depth"]))
+                    if ".depth" in dv_:
+                        info_sites.append((bi_, st_, b.value(d_["reached_maxdepth"])))
+                    else:
+                        R.bad("C03-R4", "%s:sampleinfo-depth" % b.path, "%s @%s" % (b.path, loc(st_["span"])), "SampleInfo.depth is %s, not the depth of the tree" % dv_)
+        info_sites.sort(key=lambda x: (x[1].get("span") or {}).get("line", 0))
+        for i, (bb, t, flag) in enumerate(info_sites):
             site = "%s @%s" % (b.path, loc(t["span"]))
             key = "%s:info#%d" % (b.path, i)
             is_true = flag[0] == "const" and flag[2] == "true"
@@ -312,8 +348,9 @@ def r4(F, R):
         s = vt_str(v)
         if v[0] == "const" and v[2] == "0":
             R.ok("C03-R4", key, site, "depth = 0")
-        elif "AddWithOverflow" in s and ".depth" in s and s.count("1") >= 1 and path_ends(wb.path, "merge_into"):
-            R.ok("C03-R4", key, site, "depth += 1 in the merge")
+        elif v[0] == "field" and v[1][0] == "bin" and v[1][1] == "AddWithOverflow" and v[1][3][0] == "const" and v[1][3][2] == "1" and \
+                v[1][2][0] == "field" and v[1][2][2] == "depth" and K.root_local(wb, {"k": "copy", "pl": {"l": st["pl"]["l"], "p": []}}) == _vt_root(v[1][2]):
+            R.ok("C03-R4", key, site, "depth += 1 (the tree's own depth, in the merge)")
         else:
             R.bad("C03-R4", key, site, "unexpected write of NutsTree.depth: %s" % s)
     # SampleInfo is built from the flag parameter
